@@ -117,8 +117,34 @@ def c18(prop, tier, verdict):
                                    'the interleavings of the limiter\'s atomic operations are model-checked (design level) and exercised by the concurrent bursts, not replayed step by step',
                                    'rate limit: real ticker (50 ms), bursts of concurrent calls, bound = tokens that can be in the bucket with one tick of slack']
 
+def c19(prop, tier, verdict):
+    def cl(line, s):
+        return 'proxy:%s/kind=%s,method=%s,codec=%s,reqmeta=%s,replymeta=%s,failure=%s' % (line.get('ev'), s.get('kind'), s.get('method'), s.get('codec'), s.get('reqmeta'), s.get('replymeta'), s.get('failure'))
+    cov, _ = eng_generic.run(prop, tier, verdict, 'Proxy', 'proxy', 'PProxy', cl, mc_cfg='Proxy_mc.cfg', min_count=200,
+                             nontrivial=lambda s: s['reqmeta'] != 'none' or s['replymeta'] != 'none' or s['failure'] != 'none' or s['method'] != 'echo')
+    return 'exploration', cov, ['three real peers (caller, proxy with the shipped plugin, backend) over in-memory connections, plus the same caller connected directly to the backend as the reference',
+                                'request space of spec/Proxy.tla: kind x method (served / failing / missing at the backend) x codec json/protobuf x request metadata classes x reply metadata classes x body classes x backend failure (down before, cut during)',
+                                'metamorphic oracle: proxied outcome = direct outcome; all 264 cases executed in both tiers']
+
+def c15(prop, tier, verdict):
+    def cl(line, s):
+        what = line.get('ev')
+        if what == 'Sentinels':
+            exp = dict(x.split(':', 1) for x in line.get('expected', '').split(';') if ':' in x)
+            got = dict(x.split(':', 1) for x in line.get('v', '').split(';') if ':' in x)
+            what += ':' + ','.join(sorted(k for k in got if got.get(k) != exp.get(k)))
+        elif what == 'Probe':
+            what += ':' + str(line.get('name'))
+        return 'hist:%s' % what
+    cov, _ = eng_generic.run(prop, tier, verdict, 'History', 'hist', 'PHistory', cl, consts={'MaxLen': '3' if tier == 'thorough' else '2'}, min_count=150,
+                             nontrivial=lambda s: len(s.get('ops', [])) > 1)
+    return 'model_checking', cov, ['alphabet of 13 whole-process operations (direct and proxied calls and pushes, backend down / cut, closed sessions, unknown route, undecodable body, handler panic, auth reject, overload reject, secure key mismatch); every history of length <= 2 (quick) / 3 (thorough) in ONE process, so a mutated shared status is seen by everything after it',
+                                   'after every operation the verif accessor snapshots every package-level status; before and after every history four failing probes are repeated and their (code, msg, cause) compared']
+
 CHECKS = {
     'C01': c01,
+    'C15': c15,
+    'C19': c19,
     'C18': c18,
     'C17': c17,
     'C16': c16,
